@@ -474,6 +474,14 @@ func (c *FnCtx) execLoop(st *State, node ast.Node, label string, bodyNode ast.No
 			exits = append(exits, ex)
 		}
 	}
+	var backPCs []string
+	defer func() {
+		// one obligation over all groups of back-edge states: some execution of the body reaches its end
+		if len(ls.Inv) > 0 && !c.inTrial[node] && len(backPCs) > 0 && entryReachable {
+			c.addObl(&Obligation{Name: fmt.Sprintf("%s/loop%d/backedge-reachable", c.key, ord), Kind: "vacuity", Descr: "some execution of the loop body reaches its end",
+				Pos: c.pos(node), Hyps: nil, Goal: tNot(tOr(backPCs...)), Expect: "notunsat", Timeout: 2, Only: []string{"z3-new"}})
+		}
+	}()
 	for _, b := range c.mergeStates(back) {
 		var ends []*State
 		if post != nil {
@@ -485,13 +493,8 @@ func (c *FnCtx) execLoop(st *State, node ast.Node, label string, bodyNode ast.No
 		} else {
 			ends = []*State{b}
 		}
-		if len(ls.Inv) > 0 && !c.inTrial[node] && len(ends) > 0 && entryReachable {
-			var pcs []string
-			for _, e := range ends {
-				pcs = append(pcs, e.pcTerm())
-			}
-			c.addObl(&Obligation{Name: fmt.Sprintf("%s/loop%d/backedge-reachable", c.key, ord), Kind: "vacuity", Descr: "some execution of the loop body reaches its end",
-				Pos: c.pos(node), Hyps: nil, Goal: tNot(tOr(pcs...)), Expect: "notunsat", Timeout: 2, Only: []string{"z3-new"}})
+		for _, e := range ends {
+			backPCs = append(backPCs, e.pcTerm())
 		}
 		for _, e := range ends {
 			for i, inv := range ls.Inv {
